@@ -158,6 +158,16 @@ def gen_eph_safety(rng, seed):
     scn = scenarios.finish(p, seed, link, 60000, family='eph-safety', stop_counts={'k0': N}, grace_ms=500, stop_when_all_done=False)
     if rng.random() < 0.4:
         scn['loss'] = {'p': rng.choice([0.1, 0.3]), 'links': [['src', 'e'], ['src', 'e9'], ['e', 'k0']]}
+    if rng.random() < 0.3:
+        # the PUBLISHER (or the ephemeral branch) goes away and comes back - cleanly (CLOSE) or killed - while ephemeral consumers listen:
+        # what they receive afterwards must still be complete sets in non-decreasing order per incarnation
+        victim = rng.choice(['src', 'src', 'e'])
+        kind = rng.choice(['clean_restart', 'kill_restart'])
+        if kind == 'clean_restart':
+            p.by_id[victim]['prop_exit'] = 'none'
+        scn['faults'] = [{'at_ms': rng.randint(200, 1200), 'kind': kind, 'node': victim, 'delay_ms': rng.choice([0, 300, 1500])}]
+        scn['stop_counts'] = None
+        scn['until_ms'] = 20000
     return scn
 
 
